@@ -54,7 +54,7 @@ static FILE* g_out = nullptr;
 static long long g_records = 0;
 static double g_lmin2 = 0, g_lmax2 = 0;
 static snapshot g_pre_op, g_pre_pass;
-static bool g_swaps_enabled = true, g_in_band = false;
+static bool g_swaps_enabled = true, g_in_band = false, g_force_in_band = false;
 
 // the mesh already satisfies the edge-length band and (when swaps are enabled) the triangle quality rule; with a margin
 // so that the verdict does not hinge on the last bit
@@ -156,7 +156,7 @@ static void emit(const char* op, cell& c, const snapshot& pre, long a, long b, l
 static void hook(int phase, const char* op, cell* c, long n1, long n2, long f1, long f2, double v1, double v2) {
     const bool is_pass = !std::strcmp(op, "pass");
     if (phase == 0) {
-        if (is_pass) { g_pre_pass = take(*c); g_pass_ops.clear(); g_in_band = in_band(*c); }
+        if (is_pass) { g_pre_pass = take(*c); g_pass_ops.clear(); g_in_band = g_force_in_band || in_band(*c); }
         else g_pre_op = take(*c);
         return;
     }
@@ -192,6 +192,24 @@ int main(int argc, char** argv) {
     g_out = fopen(argv[4], "w");
     verif::hooks().mesh_op = hook;
     std::uniform_real_distribution<double> U(0., 1.);
+    // ---- boundary cases on the lattice: edges EXACTLY as long as a threshold are inside the band (split only if longer, collapse
+    // only if shorter): octahedra with Pythagorean edge lengths, so that the squared lengths and thresholds are exact in doubles
+    for (int variant = 0; variant < 2; variant++) for (double unit : {std::ldexp(1.0, -17), 1.0}) for (int sw = 0; sw < 2; sw++) {
+        const double ax[2][3] = {{3, 4, 3}, {4, 3, 4}};            // edges: 5, sqrt(18), 5   /   5, sqrt(32), 5
+        shapes::tmesh m = shapes::octahedron();
+        for (size_t i = 0; i < m.nn(); i++) for (int a = 0; a < 3; a++) m.pos[3 * i + a] *= ax[variant][a];
+        shapes::transform(m, unit, 7 * unit, -3 * unit, 50 * unit);
+        cell_ptr c = make_cell(m);
+#if DYNAMIC_MODEL_INDEX == 0
+        for (auto& n : cell_tester::nodes(*c)) cell_tester::momentum(n) = vec3(1e-15, -2e-15, 3e-15);
+#endif
+        const double lmin = (variant == 0 ? 2. : 5.) * unit, lmax = (variant == 0 ? 5. : 6.) * unit;   // variant 0: longest edges == l_max; variant 1: shortest edges == l_min
+        g_swaps_enabled = sw; g_force_in_band = true;
+        local_mesh_refiner lmr(lmin, lmax, sw);
+        g_lmin2 = lmr.get_l_min_squared(); g_lmax2 = lmr.get_l_max_squared();
+        try { lmr.refine_mesh(c); } catch (std::exception&) {}
+        g_force_in_band = false;
+    }
     int done = 0, cellno = 0;
     while (done < npass && g_records < max_records) {
         // a fresh cell: sphere of level 1 or 2 (or a stretched one), scaled to micrometres, anywhere in space
